@@ -244,6 +244,14 @@ def call(ip, name, args, kw):
         if name == "isnan":
             return sa is sp.nan
         return not (sa in (sp.oo, -sp.oo) or sa is sp.nan)   # symbols stand for finite data
+    if name == "isclose" and len(args) >= 2 and not isinstance(args[0], (np.ndarray, list, tuple)) and not isinstance(args[1], (np.ndarray, list, tuple)):
+        a_, b_ = S(args[0]), S(args[1])
+        rtol = S(kw.get("rtol", args[2] if len(args) > 2 else sp.Rational(1, 10 ** 5)))
+        atol = S(kw.get("atol", args[3] if len(args) > 3 else sp.Rational(1, 10 ** 8)))
+        if all(v.is_number for v in (a_, b_, rtol, atol)):
+            # numpy's definition, decided exactly on numbers: |a - b| <= atol + rtol*|b|
+            return bool(sp.Abs(a_ - b_) <= atol + rtol * sp.Abs(b_))
+        return sp.Function("isclose")(a_, b_, rtol, atol)
     if name in ("isfinite", "isnan", "isinf", "iscomplexobj", "isrealobj", "allclose", "isclose", "array_equal"):
         if name in ("isfinite", "isnan", "isinf") and isinstance(args[0], np.ndarray):
             return np.array([call(ip, name, [x], {}) for x in args[0].ravel()], dtype=bool).reshape(args[0].shape)
@@ -362,6 +370,32 @@ def call(ip, name, args, kw):
         return to_obj_array([a[i + 1] - a[i] for i in range(len(a) - 1)])
     if name == "flip":
         return to_obj_array(args[0])[::-1]
+    if name in ("round", "around", "round_"):
+        dec = kw.get("decimals", args[1] if len(args) > 1 else 0)
+        d = as_int(dec)
+
+        def rnd(x):
+            x = S(x)
+            if not (x.is_number and x.is_real):
+                raise OutsideFragment("np.round of a symbolic value")
+            xr = sp.Rational(x) if x.is_Float else sp.nsimplify(x, rational=True, tolerance=sp.Rational(1, 10 ** 60)) if not x.is_Rational else x
+            return sp.Rational(sp.floor(xr * 10 ** d + sp.Rational(1, 2)), 10 ** d)
+        a = args[0]
+        return vmap(rnd, to_obj_array(a)) if isinstance(a, (np.ndarray, list, tuple)) else rnd(a)
+    if name == "sort":
+        a = [S(x) for x in to_obj_array(args[0]).ravel()]
+        if to_obj_array(args[0]).ndim != 1 or not all(x.is_number and x.is_real for x in a):
+            raise OutsideFragment("np.sort of symbolic values / of a matrix")
+        return to_obj_array(sorted(a))
+    if name == "unique":
+        a = [S(x) for x in to_obj_array(args[0]).ravel()]
+        if not all(x.is_number and x.is_real for x in a):
+            raise OutsideFragment("np.unique of symbolic values")
+        out = []
+        for x in sorted(a):
+            if not out or x != out[-1]:
+                out.append(x)
+        return to_obj_array(out)
     if name == "roll":
         a = to_obj_array(args[0])
         sh = args[1] if len(args) > 1 else kw.get("shift")
